@@ -27,7 +27,9 @@ STUBS = ['jsonpickle.encode as used for key texts -> kenc: deterministic injecti
          'keys - validator), set elements in an order chosen by the solver (hash-seed oracle)']
 ASSUMPTIONS = ['tree-shaped arguments (no aliasing between sub-objects), property proviso',
                'passing the same parameter positionally vs by keyword are different calls']
-OUTSIDE = ['CPython hash randomisation itself (modelled as arbitrary set order; the finding is replayed in subprocesses '
+OUTSIDE = ['symbolic alias texts together with composite argument shapes in the equal-keys condition (alias fixed there; '
+           'symbolic aliases are covered with scalar shapes and in the different-keys / resolver conditions)',
+           'CPython hash randomisation itself (modelled as arbitrary set order; the finding is replayed in subprocesses '
            'with different PYTHONHASHSEED)', 'argument trees deeper than 2 or wider than 2', 'bytes / float leaves']
 
 SHAPES = ['int', 'str', 'none-bool', 'list', 'tuple', 'dict', 'set', 'object', 'nested']
@@ -111,6 +113,8 @@ def same_call_same_key(alias: str, i: int, s: str, b: bool, ex1: int, ex2: int, 
     static = bool(ctx.S('static'))
     if ctx.excluded('C06-set-iteration-order', shape == 'set' and capk != 'none'):
         return True
+    if shape not in ('int', 'str', 'none-bool'):
+        alias = 'svc.load'          # composite shapes: the alias text (identical in both calls) is fixed, see OUTSIDE
     TR = _install(False)
     cap = _capture(capk)
     # with a capture list, `ex` and `q` are excluded from the key and may differ; with capture-all they are part of it
@@ -224,7 +228,7 @@ CONDITIONS = [
     {'fn': 'same_call_same_key', 'nontrivial': 'reordered',
      'what': 'equal calls => equal keys under every kwargs / dict / set order and any excluded argument values; '
              'sharded by (argument shape, capture selection, static)',
-     'tiers': {'quick': {'bounds': {'AL': 3, 'SL': 2}, 'timeout': 300, 'shards': _QSH, 'witness_shard': _W},
+     'tiers': {'quick': {'bounds': {'AL': 2, 'SL': 1}, 'timeout': 400, 'shards': _QSH, 'witness_shard': _W},
                'thorough': {'bounds': {'AL': 4, 'SL': 3}, 'timeout': 1800, 'shards': _TSH, 'witness_shard': _W}}},
     {'fn': 'different_calls_different_keys', 'nontrivial': 'differing-calls',
      'what': 'a different alias / captured leaf / captured keyword value => a different key',
